@@ -11,6 +11,7 @@ from dalimc.spec import ref_codec as R
 
 ID = "C01"
 OPTIMISED_STRIDE = {"quick": 16, "thorough": 64}      # every k-th shard once more in an interpreter started with -O
+TRACE_STRIDE = {"quick": 16, "thorough": 64}      # every k-th shard once more with logging enabled down to TRACE
 LEVEL = "exploration"
 ENGINE = "E1"
 TECHNIQUE = "exhaustive enumeration of frame spaces through the real from_frame vs a table-driven reference decoder; decode-order sequences enumerated exhaustively"
